@@ -304,7 +304,14 @@ def bcastRows (t : List Nat) (n : Nat) (rshape : List Nat) (rows : List (List α
     match rows with
     | [x] => pure (List.replicate n x)
     | _ => throw .runtime
-  else throw .unmodelled
+  else
+    -- general right-aligned broadcasting: an axis of length 1 is repeated, the others are copied
+    let pad := List.replicate (t.length - r.length) 1 ++ r
+    let sels := List.zipWith (fun rk tk =>
+      (⟨rk, if rk = tk then List.range tk else List.replicate tk 0, true⟩ : AxSel)) pad t
+    match gather rows (flatIdx sels) with
+    | some out => pure out
+    | none => throw .runtime
 
 /-- `points[ix] = rhs` -/
 def Points.setitem (p : Points α) (ix : Index) (rhs : Points α) : Except Err (Points α) := do
